@@ -363,6 +363,15 @@ constexpr auto compute_ld()
     return r;
 }
 constexpr auto CT_LD = compute_ld();
+constexpr auto compute_ld_copysign()
+{
+    Arr2<long double, NLD, NLD> r{};
+    for (size_t i = 0; i < NLD; ++i) {
+        for (size_t j = 0; j < NLD; ++j) { r.v[i][j] = etl::copysign(make_ld(T_LD[i]), make_ld(T_LD[j])); }
+    }
+    return r;
+}
+constexpr auto CT_LD_CS = compute_ld_copysign();
 
 // ------------------------------------------------------------------ single-path samples (observed only)
 struct Civil {
@@ -880,6 +889,27 @@ bool vh::run_case(std::string const& op, Toks& in, Out& impl, Out& ref)
         std::string const t = in.str();
         auto const i        = static_cast<size_t>(in.num());
         auto const j        = static_cast<size_t>(in.num());
+        if (t == "ld" && i < NLD && j < NLD) {
+            long double const x = launder(make_ld(T_LD[i]));
+            long double const y = launder(make_ld(T_LD[j]));
+            {
+                Out mine;
+                put_ld(mine, x, true);
+                put_ld(mine, y, true);
+                std::string rest;
+                while (in.more()) {
+                    if (!rest.empty()) { rest += ' '; }
+                    rest += in.str();
+                }
+                if (rest != mine.s) {
+                    impl.tok("table-mismatch").tok(mine.s);
+                    return true;
+                }
+            }
+            put_ld(impl.tok("ok"), CT_LD_CS.v[i][j], true);
+            put_ld(ref.tok("ok"), etl::copysign(x, y), true);
+            return true;
+        }
         if (t == "f32" && i < len(T_SF32) && j < len(T_SF32)) {
             if (!check_val(in, T_SF32[i], impl) || !check_val(in, T_SF32[j], impl)) { return true; }
             put_fbits(impl.tok("ok"), CT_CS32.v[i][j], true);
